@@ -552,4 +552,74 @@ theorem expModLoop_eq {p : Int} (hp : 1 < p) : ∀ (fuel k : Nat) (a x : Int), k
       exact (Int.ModEq.refl a).mul hxx
 
 end scalars
+/-! ## sources of any magnitude -/
+section sources
+variable {C : MgCtx}
+
+/-- the signed (two's-complement) reading of a word of `rint<K>` -/
+def sval (R c : Int) : Int := if c ≥ R / 2 then c - R else c
+
+theorem ctorRintA_rep (h : AdmR C) {c : Int} (hc0 : 0 ≤ c) (hc1 : c < C.R) :
+    IsRep C.R C.p (ctorRintA C c) (sval C.R c) := by
+  have p0 := h.p0; have pR := h.pR
+  unfold ctorRintA sval rintNeg
+  simp only
+  by_cases hn : c ≥ C.R / 2
+  · simp only [hn, decide_true, ↓reduceIte]
+    have hc : 0 < c := by
+      have : 0 ≤ C.R / 2 := Int.ediv_nonneg (by omega) (by decide)
+      by_contra h0
+      have : c = 0 := by omega
+      have : C.R / 2 ≤ 0 := by omega
+      have : C.R / 2 = 0 := by omega
+      omega
+    have e : uNeg C.R c = C.R - c := by unfold uNeg; exact emod_unique (by omega) (by omega) ⟨-1, by ring⟩
+    rw [e]
+    have := negR_rep h (toMgA_rep h (C.R - c))
+    have e2 : -(C.R - c) = c - C.R := by ring
+    rwa [e2] at this
+  · simp only [hn, decide_false, Bool.false_eq_true, ↓reduceIte]
+    exact toMgA_rep h c
+
+theorem ctorRintI_eq {R p : Int} (p0 : 0 < p) (pR : p < R) {c : Int} (hc0 : 0 ≤ c) (hc1 : c < R) :
+    ctorRintI R p c = sval R c % p := by
+  unfold ctorRintI sval rintNeg
+  simp only
+  by_cases hn : c ≥ R / 2
+  · simp only [hn, decide_true, ↓reduceIte]
+    have hc : 0 < c := by
+      by_contra h0
+      have : c = 0 := by omega
+      omega
+    have e : uNeg R c = R - c := by unfold uNeg; exact emod_unique (by omega) (by omega) ⟨-1, by ring⟩
+    rw [e]
+    have m0 := Int.emod_nonneg (R - c) (show p ≠ 0 by omega)
+    have m1 := Int.emod_lt_of_pos (R - c) p0
+    have hd := Int.emod_add_mul_ediv (R - c) p
+    rw [negR_val (C := ⟨R, p, 0, 0, 0, 0⟩) p0 pR m0 m1]
+    show (if (R - c) % p = 0 then 0 else p - (R - c) % p) = (c - R) % p
+    split
+    · rename_i hz
+      rw [hz] at hd
+      exact (emod_unique (le_refl 0) p0 ⟨-((R - c) / p), by linear_combination hd⟩).symm
+    · exact (emod_unique (by omega) (by omega) ⟨-1 - (R - c) / p, by linear_combination hd⟩).symm
+  · simp only [hn, decide_false, Bool.false_eq_true, ↓reduceIte]
+
+/-- two Montgomery forms of congruent residues are the same word -/
+theorem rep_unique {B p x y a b : Int} (hx : IsRep B p x a) (hy : IsRep B p y b) (hab : p ∣ a - b) : x = y := by
+  obtain ⟨x0, x1, k1, h1⟩ := isRep_iff.mp hx
+  obtain ⟨y0, y1, k2, h2⟩ := isRep_iff.mp hy
+  obtain ⟨j, hj⟩ := hab
+  have hd : p ∣ x - y := ⟨j * B - k1 + k2, by linear_combination B * hj - h1 + h2⟩
+  obtain ⟨m, hm⟩ := hd
+  have : m = 0 := by
+    by_contra hne
+    rcases Int.lt_or_gt_of_ne hne with hlt | hgt
+    · have : p * m ≤ p * (-1) := Int.mul_le_mul_of_nonneg_left (by omega) (by omega)
+      omega
+    · have : p * 1 ≤ p * m := Int.mul_le_mul_of_nonneg_left (by omega) (by omega)
+      omega
+  rw [this] at hm; omega
+
+end sources
 end Givaro.Lemmas.Montgomery
